@@ -522,6 +522,54 @@ type CaseC20 struct {
 	Salt       uint64   `json:"salt"`
 	Lean       bool     `json:"lean,omitempty"`   // goroutines only decode, re-encode and compare bytes (no harness reflection in the loop)
 	Millis     int      `json:"millis,omitempty"` // crowd mode: every goroutine keeps calling for this long (so that all of them are descheduled mid-call)
+	// ColdFirst: the goroutines see the batch BEFORE any sequential call has touched it (the reference results are
+	// computed afterwards): whatever the library builds lazily on first sight of a value or type is built under contention
+	ColdFirst bool `json:"cold_first,omitempty"`
+}
+
+type c20res struct {
+	enc    []byte
+	encErr bool
+	dec    *Value
+	decErr bool
+	pan    any
+}
+
+// c20Cold: every goroutine encodes and decodes every item once, in its own order, with no earlier call on these values.
+func c20Cold(c *CaseC20) [][]c20res {
+	got := make([][]c20res, c.Goroutines)
+	var wg sync.WaitGroup
+	start := make(chan struct{})
+	for g := 0; g < c.Goroutines; g++ {
+		got[g] = make([]c20res, len(c.Items))
+		wg.Add(1)
+		go func(g int) {
+			defer wg.Done()
+			<-start
+			for k := range c.Items {
+				i := int((splitmix(c.Salt+uint64(g)*15485863) + uint64(k)) % uint64(len(c.Items)))
+				v := c.Items[i]
+				r := &got[g][i]
+				out, _, err, pan := LibEncode(v)
+				if pan != nil {
+					r.pan = pan
+					continue
+				}
+				r.enc, r.encErr = append([]byte{}, out...), err != nil
+				if err == nil {
+					d, _, derr, dpan := LibDecode(v.Type, r.enc)
+					if dpan != nil {
+						r.pan = dpan
+						continue
+					}
+					r.dec, r.decErr = d, derr != nil
+				}
+			}
+		}(g)
+	}
+	close(start)
+	wg.Wait()
+	return got
 }
 
 // oracleC20Lean: same property, but the goroutines spend their time inside the library (decode into a fresh
@@ -598,6 +646,10 @@ func oracleC20(c *CaseC20) *Failure {
 		dec    *Value
 		decErr bool
 	}
+	var cold [][]c20res
+	if c.ColdFirst {
+		cold = c20Cold(c)
+	}
 	refs := make([]ref, len(c.Items))
 	for i, v := range c.Items {
 		out, _, err, pan := LibEncode(v)
@@ -611,6 +663,27 @@ func oracleC20(c *CaseC20) *Failure {
 				return nil
 			}
 			refs[i].dec, refs[i].decErr = d, derr != nil
+		}
+	}
+	for g := range cold {
+		for i, r := range cold[g] {
+			tn := c.Items[i].Type
+			if r.pan != nil {
+				return failf("C20/"+tn+"/panic", "goroutine %d of %d, first call on this value in the process: panicked only when run in parallel: %v", g, c.Goroutines, r.pan)
+			}
+			if r.encErr != refs[i].encErr || !bytes.Equal(r.enc, refs[i].enc) {
+				return failf("C20/"+tn+"/encode-differs", "goroutine %d of %d (first calls on these values, made in parallel): Encode gave %d bytes (err=%v), alone %d bytes (err=%v); first difference at %d", g, c.Goroutines, len(r.enc), r.encErr, len(refs[i].enc), refs[i].encErr, firstDiff(r.enc, refs[i].enc))
+			}
+			if !r.encErr {
+				if r.decErr != refs[i].decErr {
+					return failf("C20/"+tn+"/decode-differs", "goroutine %d of %d (first calls, in parallel): Decode failed=%v, alone failed=%v", g, c.Goroutines, r.decErr, refs[i].decErr)
+				}
+				if !r.decErr {
+					if df := Diff(r.dec, refs[i].dec); df != "" {
+						return failf("C20/"+tn+"/decode-differs", "goroutine %d of %d (first calls, in parallel): Decode result differs from the sequential one: %s", g, c.Goroutines, df)
+					}
+				}
+			}
 		}
 	}
 	var wg sync.WaitGroup
@@ -800,6 +873,10 @@ func TestC20(t *testing.T) {
 			}
 			nt := len(mods) >= 3 && ck >= 1 && ext >= 1
 			cls := []string{fmt.Sprintf("goroutines:%d", c.Goroutines), fmt.Sprintf("gomaxprocs:%d", c.Procs)}
+			if !heavy && c.Goroutines <= 1000 && rapid.Bool().Draw(rt, "coldfirst") {
+				c.ColdFirst = true
+				cls = append(cls, "parallel-calls-first(values never seen by a sequential call)")
+			}
 			if refused > 0 {
 				cls = append(cls, "batch-with-messages-the-encoder-refuses-half-way")
 			}
